@@ -159,6 +159,7 @@ macro_rules! marg {
 marg!(k_marg_2x3_a0, 10, [2, 3], [0]);
 marg!(k_marg_2x3_a1, 10, [2, 3], [1]);
 marg!(k_marg_2x3x2_a1, 16, [2, 3, 2], [1]);
+marg!(k_marg_2x3x2_a0, 16, [2, 3, 2], [0]);
 marg_stubbed!(k_marg_2x3x2_a20, 16, [2, 3, 2], [2, 0]);
 marg_stubbed!(k_marg_2x3x2_a01, 16, [2, 3, 2], [0, 1]);
 marg_stubbed!(k_marg_2x2x1x2_a302, 12, [2, 2, 1, 2], [3, 0, 2]);
